@@ -137,8 +137,7 @@ def body(run):
         d = run.work / f'cli{ci}'
         (d / 'in').mkdir(parents=True)
         (d / 'out').mkdir()
-        g = synth.aligned_geom(rng, 20)
-        pair = fz.make_pair(d / 'in', g, rng, tag='i')
+        g, pair, _mbm, _n = fz.workable_pair(d / 'in', rng, lambda r: synth.aligned_geom(r, 20), (3, 3), 1, tag='i')
         args = ['fuse', '-m', 'gain', '-k', '3', '3', '-od', str(d / 'out'), '-nbo', '-pi', str(pair['src_fn']), str(pair['ref_fn'])]
         r1 = CliRunner().invoke(hcli.cli, args)
         before = snapshot(d)
